@@ -106,7 +106,11 @@ func cmdCheck(args []string) int {
 			translationErrors = append(translationErrors, r.Key+": "+e)
 		}
 		if r.tr != nil {
-			run.obls = append(run.obls, r.tr.obls...)
+			for _, o := range r.tr.obls {
+				if keepForProperty(*prop, o) {
+					run.obls = append(run.obls, o)
+				}
+			}
 		}
 	}
 	run.obls = append(run.obls, v.lemmaObligations(*prop)...)
@@ -146,8 +150,8 @@ func cmdCheck(args []string) int {
 			to := run.timeout
 			var which []string
 			if o.Cover {
-				to = 10
-				which = []string{"z3-new", "cvc5"}
+				to = 4
+				which = []string{"z3-new"}
 			}
 			res := run.pool.solve(q, to, which)
 			o.Result = &res
@@ -409,4 +413,17 @@ func stripRet(name string) string {
 		return name[:i]
 	}
 	return name
+}
+
+// keepForProperty: C13 (purity) and C15 (no crash) are cross-cutting: every function under contract contributes its
+// frame obligations to C13 and its safety/termination/structural obligations to C15; the functional clauses of those
+// functions are decided under their own properties.
+func keepForProperty(prop string, o *Obligation) bool {
+	switch prop {
+	case "C13":
+		return o.Kind == "frame" || strings.Contains(o.Name, "@purity")
+	case "C15":
+		return o.Kind == "safe" || o.Kind == "dec" || o.Kind == "structural" || strings.Contains(o.Name, "@never-nil") || strings.Contains(o.Name, "@error-iff")
+	}
+	return true
 }
